@@ -23,7 +23,7 @@ const INTERESTING: [u8; 14] = [0, 1, 2, 3, 7, 8, 0x3f, 0x40, 0x41, 0x7f, 0x80, 0
 pub fn mutate(rng: &mut Rng, h: &Honest, other: Option<&Honest>) -> (Vec<u8>, String) {
     let mut b = h.bytes.clone();
     let comps = &h.layout;
-    let kind = rng.usize(12);
+    let kind = rng.usize(13);
     let pick_comp = |rng: &mut Rng| {
         let i = rng.usize(comps.len() - 1);
         (comps[i].0, comps[i].1, comps[i + 1].1)
@@ -92,6 +92,29 @@ pub fn mutate(rng: &mut Rng, h: &Honest, other: Option<&Honest>) -> (Vec<u8>, St
             let at = rng.usize(b.len());
             b[at] = rng.u8();
             (b, "random-byte".into())
+        },
+        12 => {
+            // the field modulus bytes of the context resized / replaced (length prefix consistent)
+            let c = &h.proof.context;
+            let mut v = winter_utils::Serializable::to_bytes(c.trace_info());
+            let len = *rng.pick(&[1usize, 2, 7, 8, 9, 15, 16, 17, 31, 32, 33, 64, 128, 254]);
+            let content: Vec<u8> = match rng.usize(4) {
+                0 => vec![0u8; len],
+                1 => vec![0xffu8; len],
+                2 => {
+                    let mut m = c.field_modulus_bytes().to_vec();
+                    m.resize(len, 0);
+                    m
+                },
+                _ => rng.bytes(len),
+            };
+            v.push(len as u8);
+            v.extend_from_slice(&content);
+            v.extend(winter_utils::Serializable::to_bytes(c.options()));
+            winter_utils::Serializable::write_into(&c.num_constraints(), &mut v);
+            let ctx_end = comps[1].1;
+            v.extend_from_slice(&b[ctx_end..]);
+            (v, format!("field-modulus:{len}-bytes"))
         },
         10 => match other {
             // splice: head of this proof, tail of another
@@ -253,51 +276,59 @@ where
         },
     }
     rep.case(&b[..b.len().min(2048)], true);
+    component_bytes::<E, H>(rep, rng, &b, &desc);
+}
+
+fn component_bytes<E, H>(rep: &mut Report, rng: &mut Rng, b: &[u8], desc: &str)
+where
+    E: FieldElement,
+    H: ElementHasher<BaseField = E::BaseField>,
+{
     let (d, w, q) = (1usize << rng.usize(12), 1 + rng.usize(255), 1 + rng.usize(255));
-    record(rep, "TraceInfo::read_from_bytes", &b, &desc, guard(|| drop(TraceInfo::read_from_bytes(&b))));
-    record(rep, "ProofOptions::read_from_bytes", &b, &desc, guard(|| drop(ProofOptions::read_from_bytes(&b))));
-    record(rep, "Context::read_from_bytes", &b, &desc, guard(|| {
-        if let Ok(c) = Context::read_from_bytes(&b) {
+    record(rep, "TraceInfo::read_from_bytes", b, desc, guard(|| drop(TraceInfo::read_from_bytes(b))));
+    record(rep, "ProofOptions::read_from_bytes", b, desc, guard(|| drop(ProofOptions::read_from_bytes(b))));
+    record(rep, "Context::read_from_bytes", b, desc, guard(|| {
+        if let Ok(c) = Context::read_from_bytes(b) {
             let _ = c.num_modulus_bits();
             let _ = c.lde_domain_size();
         }
     }));
-    record(rep, "Commitments::read_from_bytes+parse", &b, &desc, guard(|| {
-        if let Ok(c) = Commitments::read_from_bytes(&b) {
+    record(rep, "Commitments::read_from_bytes+parse", b, desc, guard(|| {
+        if let Ok(c) = Commitments::read_from_bytes(b) {
             let _ = c.parse::<H>(1 + rng.usize(2), rng.usize(12));
         }
     }));
-    record(rep, "Queries::read_from_bytes+parse", &b, &desc, guard(|| {
-        if let Ok(x) = Queries::read_from_bytes(&b) {
+    record(rep, "Queries::read_from_bytes+parse", b, desc, guard(|| {
+        if let Ok(x) = Queries::read_from_bytes(b) {
             let _ = x.parse::<E, H, MerkleTree<H>>(d, q, w);
         }
     }));
-    record(rep, "OodFrame::read_from_bytes+parse", &b, &desc, guard(|| {
-        if let Ok(x) = OodFrame::read_from_bytes(&b) {
+    record(rep, "OodFrame::read_from_bytes+parse", b, desc, guard(|| {
+        if let Ok(x) = OodFrame::read_from_bytes(b) {
             let _ = x.parse::<E>(w, rng.usize(4), 1 + rng.usize(8));
         }
     }));
-    record(rep, "FriProof::read_from_bytes+parse", &b, &desc, guard(|| {
-        if let Ok(x) = FriProof::read_from_bytes(&b) {
+    record(rep, "FriProof::read_from_bytes+parse", b, desc, guard(|| {
+        if let Ok(x) = FriProof::read_from_bytes(b) {
             let _ = x.num_partitions();
             let _ = x.num_layers();
             let _ = x.parse_remainder::<E>();
             let _ = x.parse_layers::<E, H, MerkleTree<H>>(d.max(2), *rng.pick(&[2usize, 4, 8, 16]));
         }
     }));
-    record(rep, "BatchMerkleProof::read_from_bytes+get_root", &b, &desc, guard(|| {
-        if let Ok(x) = BatchMerkleProof::<H>::read_from_bytes(&b) {
+    record(rep, "BatchMerkleProof::read_from_bytes+get_root", b, desc, guard(|| {
+        if let Ok(x) = BatchMerkleProof::<H>::read_from_bytes(b) {
             let idx: Vec<usize> = (0..rng.usize(5)).map(|_| rng.usize(64)).collect();
             let leaves = vec![H::Digest::default(); idx.len()];
             let _ = x.get_root(&idx, &leaves);
         }
     }));
-    record(rep, "Digest::read_from_bytes", &b, &desc, guard(|| drop(<H::Digest as Deserializable>::read_from_bytes(&b))));
-    record(rep, "elements::read_from_bytes", &b, &desc, guard(|| {
-        let _ = E::read_from_bytes(&b);
-        let _ = E::BaseField::read_from_bytes(&b);
-        let _ = Vec::<E>::read_from_bytes(&b);
-        let mut rd = SliceReader::new(&b);
+    record(rep, "Digest::read_from_bytes", b, desc, guard(|| drop(<H::Digest as Deserializable>::read_from_bytes(b))));
+    record(rep, "elements::read_from_bytes", b, desc, guard(|| {
+        let _ = E::read_from_bytes(b);
+        let _ = E::BaseField::read_from_bytes(b);
+        let _ = Vec::<E>::read_from_bytes(b);
+        let mut rd = SliceReader::new(b);
         let _ = winter_utils::ByteReader::read_many::<E>(&mut rd, rng.usize(300));
     }));
 }
@@ -363,3 +394,62 @@ pub fn run(args: &Args) {
     let _: Option<Value> = None;
     rep.finish(&args.out());
 }
+
+/// decoders only (no prover needed): mutated encodings of the library's own dummy proof and random
+/// bytes through Proof::from_bytes and every component decoder; sized for Miri as well
+pub fn decoders(args: &Args) {
+    let mut rep = Report::new("C05", "c05_decoders",
+        "mutated encodings of Proof::new_dummy() (header bytes, huge lengths, truncation, random bytes) and random strings through Proof::from_bytes and every component decoder / parser; no panic, abort, hang or (under Miri) undefined behaviour");
+    let seed = args.seed();
+    type F64 = f64m::BaseElement;
+    let base = winter_utils::Serializable::to_bytes(&Proof::new_dummy());
+    let fake = Honest_like(&base);
+    let mut w = Worker::new(args, 300);
+    for case in w.from..w.to {
+        if !w.start(case, &mut rep) {
+            continue;
+        }
+        let mut rng = Rng::for_case(seed, 502, case);
+        let mut b = base.clone();
+        let desc = match rng.usize(5) {
+            0 => {
+                let n = rng.usize(120);
+                b = rng.bytes(n);
+                "random"
+            },
+            1 => {
+                let cut = rng.usize(b.len() + 1);
+                b.truncate(cut);
+                "truncated"
+            },
+            2 => {
+                let at = rng.usize(b.len().min(40));
+                b.splice(at..at, vec![0x00, 0xff, 0xff, 0xff, 0xff, 0xff, 0xff, 0xff, 0xff]);
+                "huge-length"
+            },
+            _ => {
+                for _ in 0..1 + rng.usize(3) {
+                    let at = rng.usize(b.len());
+                    b[at] = if rng.bool() { *rng.pick(&INTERESTING) } else { rng.u8() };
+                }
+                "bytes"
+            },
+        };
+        rep.case(&b, true);
+        record(&mut rep, "Proof::from_bytes", &b, desc, guard(|| {
+            if let Ok(p) = Proof::from_bytes(&b) {
+                let _ = p.conjectured_security::<Blake3_256<F64>>();
+                let _ = p.lde_domain_size();
+            }
+        }));
+        let _ = &fake;
+        component_bytes::<QuadExtension<F64>, Blake3_256<F64>>(&mut rep, &mut rng, &b, desc);
+        if rep.samples.len() < rep.max_samples && case % 50 == 0 {
+            rep.sample(json!({"case": case, "mutation": desc, "bytes": hex(&b[..b.len().min(48)])}));
+        }
+    }
+    rep.finish(&args.out());
+}
+
+#[allow(non_snake_case)]
+fn Honest_like(_b: &[u8]) {}
